@@ -91,3 +91,13 @@ Proof.
   unfold print_dec. apply unorm_fix_canonical.
   rewrite <- (DecimalN.Unsigned.to_of (N.to_uint n)), DecimalN.Unsigned.of_to. reflexivity.
 Qed.
+
+Lemma canonical_digits s : canonical_dec s = true -> all_b is_ascii_digit s = true.
+Proof.
+  destruct s as [|c [|d s]]; cbn [canonical_dec]; [discriminate| |].
+  - intros H. cbn. rewrite H. reflexivity.
+  - intros H. apply andb_true_iff in H. tauto.
+Qed.
+
+Lemma print_dec_all_digits n : all_b is_ascii_digit (print_dec n) = true.
+Proof. apply canonical_digits, print_dec_canonical. Qed.
